@@ -171,7 +171,7 @@ func documents() []mDoc {
 			{Key: "Package", First: "p\xc3\xa9"},
 		},
 	}
-	return []mDoc{
+	docs := []mDoc{
 		{Name: "one-paragraph", EOL: "\n", Paras: one},
 		{Name: "two-paragraphs-multiline", EOL: "\n", Paras: two},
 		{Name: "two-paragraphs-multiline-crlf", EOL: "\r\n", Paras: two},
@@ -187,7 +187,27 @@ func documents() []mDoc {
 		{Name: "degenerate-whitespace-only-lines", EOL: "\n", IsRaw: true, Raw: []byte("  \n\t\n \t \n"), Exotic: true},
 		{Name: "degenerate-blank-lines-crlf", EOL: "\r\n", IsRaw: true, Raw: []byte("\r\n\r\n"), Exotic: true},
 	}
+	// every LF document also DELIVERED WITH CRLF line ends (same canonical text), so that every tamper is applied to
+	// both deliveries
+	have := map[string]bool{}
+	for _, d := range docs {
+		have[d.Name] = true
+	}
+	for _, d := range docs[:len(docs):len(docs)] {
+		if d.EOL != "\n" || have[d.Name+"-crlf"] || d.Name == "degenerate-empty-text" {
+			continue
+		}
+		t := d
+		t.Name, t.EOL = d.Name+crlfDelivered, "\r\n"
+		if d.IsRaw {
+			t.Raw = bytes.ReplaceAll(d.Raw, []byte("\n"), []byte("\r\n"))
+		}
+		docs = append(docs, t)
+	}
+	return docs
 }
+
+const crlfDelivered = "-crlf-delivered"
 
 // ---------------------------------------------------------------------------------------------------------
 // replayable input
@@ -600,6 +620,17 @@ func check(scen string, in In) verdict {
 			"an error and no paragraphs (input begins with the armour header, a keyring is supplied, no signer is reported)", o)
 		return res
 	}
+	// clause 5a: whatever is accepted with a signer must be accepted by the REFERENCE implementation too (first
+	// clearsigned block of the same bytes, x/crypto clearsign.Decode + CheckDetachedSignature against the same keyring,
+	// same signer) — RFC 4880 §7.1 decides what "the signed text was modified" means, not this harness
+	if o.signer != "" && o.success() && in.Fault != nil {
+		if fpr, why := referenceSigner(doc, in); fpr != o.signer {
+			res.class = "unsound"
+			res.v = mkV(scen, "accepted-only-what-the-reference-implementation-accepts", in, doc,
+				"an error: the reference implementation (clearsign.Decode + CheckDetachedSignature on these bytes, this keyring) says: "+why, o)
+			return res
+		}
+	}
 	// clause 5: a fault inside the signed text that changes its canonical form must make reading fail
 	if ts, te, ok := gen.CSRegion(in.Orig); ok && in.Fault != nil {
 		if inside, after := faultInsideText(in.Orig, in.Fault, ts, te); inside &&
@@ -623,6 +654,12 @@ func check(scen string, in In) verdict {
 		res.class = "rejected-after-original-prefix"
 	default:
 		res.class = "rejected"
+	}
+	if in.Fault != nil && !o.success() && armoured {
+		// informative only (the library may be stricter than the reference): stricter-than-reference cases are visible
+		if fpr, _ := referenceSigner(doc, in); fpr != "" {
+			res.class += "(reference-accepts)"
+		}
 	}
 	if res.positive && !o.success() {
 		// "reading succeeds … the paragraphs returned are exactly those of the signed text": a validly signed
@@ -1022,6 +1059,24 @@ func Run(r *mc.Run) {
 
 // selfCheck validates the harness' own machinery: canonical-form model vs clearsign.Decode, region finder,
 // and (if installed) gpgv on our assembled documents. Never decides the property.
+// referenceSigner: fingerprint of the signer the reference implementation reports for doc with in's keyring ("" and
+// the reason if it rejects).
+func referenceSigner(doc []byte, in In) (string, string) {
+	blk, _ := clearsign.Decode(doc)
+	if blk == nil {
+		return "", "no clearsigned block"
+	}
+	ring, err := in.ring()
+	if err != nil || ring == nil {
+		return "", "no keyring"
+	}
+	signer, err := openpgp.CheckDetachedSignature(*ring, bytes.NewReader(blk.Bytes), blk.ArmoredSignature.Body)
+	if err != nil {
+		return "", err.Error()
+	}
+	return gen.CSFingerprint(signer), "accepted"
+}
+
 // referenceVerifies: the REFERENCE implementation (x/crypto clearsign + openpgp, not the library under test)
 // accepts doc as signed by k.
 func referenceVerifies(doc []byte, k *key) bool {
@@ -1063,7 +1118,7 @@ func selfCheck(r *mc.Run, docs []mDoc, signed []signedDoc, K1, K2 *key) {
 		return b.String()
 	}
 	for _, d := range docs {
-		w, ok := lit[d.Name]
+		w, ok := lit[strings.TrimSuffix(d.Name, crlfDelivered)]
 		if d.IsRaw {
 			w, ok = "", true // no paragraph
 		}
